@@ -12,11 +12,6 @@ theorem nodupB_iff : ∀ (l : List Name), nodupB l = true ↔ l.Nodup := by
   | nil => simp [nodupB]
   | cons a as ih => simp [nodupB, ih]
 
-/-- the decidable hypothesis of `C07_equiv_partial` -/
-def okC (c : Content) : Bool :=
-  c.surs.isEmpty && c.data.isEmpty && noIA c.vars && noIA c.pars && numCoefs c && wellNamed c
-    && allVarsHaveEq c && stoichOnVars c && !c.vars.isEmpty
-
 structure Ok (c : Content) : Prop where
   surs : c.surs = []
   data : c.data = []
